@@ -103,6 +103,43 @@ func HarnessC12Cmd(kind, which, wd, cut int) {
 	verifC12(in, cut)
 }
 
+// HarnessC12Pipe: the first client is not malformed but unusual: well-formed pipelines that end the
+// connection or mix locally answered and forwarded requests (QUIT behind a request still waiting for its
+// backend, requests after QUIT, PING and an unknown command in front of a forwarded one). The bystander
+// must be served - and stay connected - exactly as after any other client.
+//   0: GET b, QUIT    1: PING, QUIT    2: QUIT    3: GET b, QUIT, GET b    4: PING, KEYS *, GET b    5: GET b, GET (no key), QUIT
+func HarnessC12Pipe(kind, cut int) {
+	get := core.VerifEncode([]byte("get"), []byte("b"))
+	quit := core.VerifEncode([]byte("quit"))
+	ping := core.VerifEncode([]byte("ping"))
+	if kind < 0 {
+		kind = verifrt.Choice("pipeline", 6)
+	}
+	var parts [][]byte
+	switch kind {
+	case 0:
+		parts = [][]byte{get, quit}
+	case 1:
+		parts = [][]byte{ping, quit}
+	case 2:
+		parts = [][]byte{quit}
+	case 3:
+		parts = [][]byte{get, quit, get}
+	case 4:
+		parts = [][]byte{ping, core.VerifEncode([]byte("keys"), []byte("*")), get}
+	case 5:
+		parts = [][]byte{get, core.VerifEncode([]byte("get")), quit}
+	}
+	var in []byte
+	for _, p := range parts {
+		in = append(in, p...)
+	}
+	if cut < 0 {
+		cut = verifrt.Concretize(verifrt.Int("cut", 0, len(in)-1)) // 0: one read
+	}
+	verifC12(in, cut)
+}
+
 func verifC12(in []byte, cut int) {
 	L := len(in)
 	w, _ := verifWorld2(core.VerifDefaultOptions())
@@ -170,6 +207,14 @@ func verifC12(in []byte, cut int) {
 	}
 	w.Feed(target, []byte("$2\r\nhi\r\n"))
 	verifrt.Assert(bytes.Equal(w.Sent(ok), []byte("$2\r\nhi\r\n")), "bystander_served")
+	// ... and goes on being served: by now every request object the offender used has been recycled
+	for round := 0; round < 2; round++ {
+		verifrt.Assert(ok.Opened() && target.Opened(), "bystander_connection_stays_open")
+		w.Feed(ok, []byte("*2\r\n$3\r\nget\r\n$1\r\nb\r\n"))
+		w.RunTasks()
+		w.Feed(target, []byte("$2\r\nho\r\n"))
+	}
+	verifrt.Assert(bytes.Equal(w.Sent(ok), []byte("$2\r\nhi\r\n$2\r\nho\r\n$2\r\nho\r\n")) && ok.Opened(), "bystander_served_again_and_again")
 	verifrt.Cover("end", true)
 }
 
@@ -183,6 +228,7 @@ func anyBytes(w *core.VerifWorld) bool {
 }
 
 func init() {
+	verifrt.Register("HarnessC12Pipe", func(p []int64) { HarnessC12Pipe(int(p[0]), int(p[1])) })
 	verifrt.Register("HarnessC12Cmd", func(p []int64) { HarnessC12Cmd(int(p[0]), int(p[1]), int(p[2]), int(p[3])) })
 	verifrt.Register("HarnessC12Len", func(p []int64) { HarnessC12Len(int(p[0]), int(p[1])) })
 	verifrt.Register("HarnessC12", func(p []int64) { HarnessC12(int(p[0]), int(p[1])) })
